@@ -6,7 +6,6 @@ mod verif_c02 {
     use super::verif_mstep::*;
     use super::verif_rig_multi::*;
     use super::*;
-    use crate::draw_target::verif_scr::*;
     use crate::verif_common::*;
 
     const M: usize = 3;
@@ -39,7 +38,7 @@ mod verif_c02 {
         (ms, perm, live)
     }
 
-    // @harness id=C02 tier=quick timeout=2400 mem=12
+    // @harness id=C02 tier=quick timeout=2400 mem=8 checks=rust
     // @bounds MultiState with 3 slots in any order / any split between live and free; one insert at End / Index(p) / IndexFromBack(p) / After(anchor) / Before(anchor), p in 0..=4: the new bar sits at the documented position, the others keep their relative order, the slot is fresh or recycled, the invariant is preserved
     #[kani::proof]
     #[kani::unwind(7)]
@@ -92,7 +91,7 @@ mod verif_c02 {
         std::mem::forget(ms);
     }
 
-    // @harness id=C02 tier=quick timeout=2400 mem=12
+    // @harness id=C02 tier=quick timeout=2400 mem=8 checks=rust
     // @bounds same states; remove_idx(i) for any slot i: a live slot leaves the order (others keep their relative order) and becomes free and reset; removing a free slot changes nothing
     #[kani::proof]
     #[kani::unwind(7)]
@@ -126,16 +125,20 @@ mod verif_c02 {
         std::mem::forget(ms);
     }
 
-    /// frame composition: members 0..2 with letters A,B,C in a CONCRETE order `ord`, member `undrawn` never drawn
-    fn frame(ord: [usize; 3], undrawn: usize, bottom: bool) {
-        let scr = leak_scr(4, 10);
+    /// frame composition: members 0..2 with letters A,B,C in a CONCRETE order `ord`, member `undrawn` never drawn; the
+    /// terminal protocol is replaced by the draw_to_term contract (row stack)
+    fn frame(ord: [usize; 3], undrawn: usize) {
+        use crate::draw_target::verif_rig_dt::*;
         let now = mk_instant(1_000_000, 0);
         let f: usize = kani::any();
         kani::assume(f <= 3);
-        let mut ms = rig_multi(scr_target_limited(scr, 20, 5, now, f));
-        if bottom {
-            ms.alignment = MultiProgressAlignment::Bottom;
+        unsafe {
+            SLEN = 0;
+            DRAWS = 0;
+            LOG_FLOOR = L;
+            RL_VERDICT = true;
         }
+        let mut ms = rig_multi(null_target(4, 10, f));
         let mut i = 0;
         while i < 3 {
             ms.members.push(MultiStateMember::default());
@@ -145,93 +148,65 @@ mod verif_c02 {
         while i < 3 {
             ms.ordering.push(ord[i]);
             if ord[i] != undrawn {
-                set_member_lines(&mut ms, ord[i], 1, b'A' + ord[i] as u8);
+                let mut d = DrawState::default();
+                d.lines = Vec::with_capacity(3);
+                d.lines.push(boxed_line(b'A' + ord[i] as u8));
+                ms.members[ord[i]].draw_state = Some(d);
             }
             i += 1;
         }
-        // screen: L log rows, then the previous frame of f rows
         let mut r = 0;
-        while r < NROWS {
+        while r < 6 {
             if r < L {
-                scr.tags[r].set(T_LOG);
+                stack_push(b'L');
             } else if r < L + f {
-                scr.tags[r].set(T_OLD);
+                stack_push(b'O');
             }
             r += 1;
-        }
-        if f > 0 {
-            scr.row.set(L + f - 1);
-            scr.col.set(4);
-            scr.maxrow.set(L + f - 1);
-        } else {
-            scr.row.set(L);
-            scr.col.set(0);
-            scr.maxrow.set(L);
         }
         // member `upd` redraws itself (its most recent rendering is 'D'), forced
         let upd: usize = kani::any();
         kani::assume(upd < 3 && upd != undrawn);
         let r = member_draw(&mut ms, upd, b'D', true, now);
         assert!(r.is_ok());
-        // expected frame: drawn members in `ord` order, each once; `upd` shows its latest rendering
+        // expected frame: drawn members in `ord` order, each once; `upd` shows its latest rendering; log rows intact
         let painted = if undrawn < 3 { 2 } else { 3 };
-        let shift = if bottom && painted < f { f - painted } else { 0 };
-        let mut row = L;
-        let mut j = 0;
-        while j < shift {
-            assert!(scr.is_blank(row));
-            row += 1;
-            j += 1;
-        }
-        let mut i = 0;
-        while i < 3 {
-            let m = ord[i];
-            if m != undrawn {
-                let want = if m == upd { b'D' } else { b'A' + m as u8 };
-                assert!(scr.tag(row) == want);
-                row += 1;
+        unsafe {
+            assert!(SLEN == L + painted);
+            let mut row = L;
+            let mut i = 0;
+            while i < 3 {
+                let m = ord[i];
+                if m != undrawn {
+                    let want = if m == upd { b'D' } else { b'A' + m as u8 };
+                    assert!(STACK[row] == want);
+                    row += 1;
+                }
+                i += 1;
             }
-            i += 1;
+            assert!(STACK[0] == b'L' && STACK[1] == b'L' && STACK[2] == b'L');
         }
-        let mut r = 0;
-        while r < NROWS {
-            if r < L {
-                assert!(scr.tag(r) == T_LOG);
-            } else if r >= row {
-                assert!(scr.is_blank(r));
-            }
-            r += 1;
-        }
-        assert!(last_count(&ms) == painted + shift);
+        assert!(target_last_rows(&ms.draw_target) == painted);
         kani::cover!(f == 3);
         kani::cover!(f == 0);
         std::mem::forget(ms);
     }
 
-    // @harness id=C02 tier=quick timeout=3000 mem=10
+    // @harness id=C02 tier=thorough timeout=3400 mem=16 checks=rust
     // @bounds 3 members in order [2,0,1], all drawn, previous frame of 0..=3 rows, any member redraws: the frame below the log shows each member's latest rendering exactly once in that order
     #[kani::proof]
-    #[kani::unwind(14)]
-    //@STUBS std now widthascii repeat noterm rlctl noweight
+    #[kani::unwind(7)]
+    //@STUBS std now widthascii noterm rlctl noweight dttcontract rows1 lineclone noremove norwlock
     fn c02_frame_order_201() {
-        frame([2, 0, 1], 9, false);
+        frame([2, 0, 1], 9);
     }
 
-    // @harness id=C02 tier=quick timeout=3000 mem=10
-    // @bounds 3 members in order [1,2,0], member 2 never drawn, previous frame of 0..=3 rows (the frame shrinks), bottom alignment: blank padding of exactly the shrink on top, then the drawn members in order
+    // @harness id=C02 tier=thorough timeout=3400 mem=16 checks=rust
+    // @bounds 3 members in order [1,2,0], member 2 never drawn, previous frame of 0..=3 rows (the frame shrinks): only the drawn members, in order
     #[kani::proof]
-    #[kani::unwind(14)]
-    //@STUBS std now widthascii repeat noterm rlctl noweight
-    fn c02_frame_bottom_shrink() {
-        frame([1, 2, 0], 2, true);
-    }
-
-    // @harness id=C02 tier=thorough timeout=3000 mem=10
-    // @bounds 3 members in order [0,1,2], member 0 never drawn, top alignment, previous frame of 0..=3 rows
-    #[kani::proof]
-    #[kani::unwind(14)]
-    //@STUBS std now widthascii repeat noterm rlctl noweight
-    fn c02_frame_order_012_undrawn0() {
-        frame([0, 1, 2], 0, false);
+    #[kani::unwind(7)]
+    //@STUBS std now widthascii noterm rlctl noweight dttcontract rows1 lineclone noremove norwlock
+    fn c02_frame_undrawn_member() {
+        frame([1, 2, 0], 2);
     }
 }
